@@ -13,6 +13,7 @@ template <class T> static void run_T(Choice &c, Ctx &cx)
     GMat G = gen_values(c, n, n, pat, cplx, single, family);
     Opts o = gen_opts(c, n, single, true, true);
     IluOpts io = gen_ilu_opts(c);
+    if (c.chance(28)) o.u = 0.0;          // DiagPivotThresh is documented for [0,1]: 0 means "take the diagonal whenever it is nonzero"
     int nrhs = (int)c.below(3);
     int ldb = n + (int)c.below(2), ldx = n + (int)c.below(2);
     Expert<T> e; e.init(n, nrhs, ldb, ldx); e.ilu = true;
